@@ -642,8 +642,8 @@ class PEval:
                     if len(n.args) > 1:
                         return self._ev(n.args[1], env, depth)
                     return ("const", None)
-            if d is not None and (d in self.identity or d.split(".")[-1] in self.identity) and n.args:
-                return self._ev(n.args[0], env, depth)
+            if d is not None and (d in self.identity or d.split(".")[-1] in self.identity) and (n.args or len(n.keywords) == 1):
+                return self._ev(n.args[0] if n.args else n.keywords[0].value, env, depth)
             # callable held in a local / module-level helper
             callee = None
             if isinstance(n.func, ast.Name):
